@@ -89,3 +89,58 @@ def items():
         R.contracts[con.name] = con
         out.append(('src/cffi/cparser.py', R, con.function, con))
     return out
+
+
+# ---------------------------------------------------------------------------------------------------------------
+# `struct ...`, `union ...`, `enum ...`: '...' where a tag is expected
+
+from vf.pyexec import inline_method          # noqa: E402
+
+R.globals['model'] = ('$module', 'model')
+R.globals['model.StructType'] = ('$class', 'StructType')
+R.globals['model.UnionType'] = ('$class', 'UnionType')
+R.constructors['StructType'] = lambda ex, st, pos, kw, n: iter([(st, PObj('StructType', name=pos[0], forcename=None))])
+R.constructors['UnionType'] = lambda ex, st, pos, kw, n: iter([(st, PObj('UnionType', name=pos[0], forcename=None))])
+R.method_models['Parser._build_enum_type'] = lambda ex, st, o, pos, kw, n: iter([(st, PObj('EnumType', name=pos[0], forcename=None))])
+R.method_models['Parser._declare'] = inline_method('Parser._declare')        # the real function (with its assert) runs
+
+
+def _mk_tag(kind, dots):
+    class K(PyContract):
+        name = 'cparser:Parser._get_struct_union_enum_type#new-%s/%s' % (kind, "'...' as its tag" if dots else 'a name as its tag')
+        function = 'Parser._get_struct_union_enum_type'
+        allowed = ALLOWED
+
+        def segment(self, fn):
+            for s in fn.body:
+                if isinstance(s, ast.If) and isinstance(s.test, ast.Compare) and isinstance(s.test.left, ast.Name) \
+                        and s.test.left.id == 'tp' and isinstance(s.test.ops[0], ast.Is):
+                    return [s]
+            return None
+
+        def setup(self, ex):
+            nm = '__dotdotdot__' if dots else 'foo'
+            node = mk_node({'struct': 'Struct', 'union': 'Union', 'enum': 'Enum'}[kind], name=nm)
+            this = PObj('Parser', _declarations={}, _included_declarations=set(), _options={})
+            return {'self': this, 'kind': kind, 'type': node, 'name': nm, 'explicit_name': nm, 'key': '%s %s' % (kind, nm),
+                    'tp': None, 'force_name': None, 'nested': False}, []
+
+        def post(self, ex, args, kind_, value, st):
+            if kind_ == 'raise':
+                return [('only a cffi error class may leave', z3.BoolVal(value.cls in ALLOWED)),
+                        ("refused only for '...'", z3.BoolVal(dots))]
+            return [("'...' is not accepted as a tag", z3.BoolVal(not dots))]
+    return K()
+
+
+_items0 = items
+
+
+def items():                                 # noqa: F811
+    out = _items0()
+    for kind in ('struct', 'union', 'enum'):
+        for dots in (False, True):
+            con = _mk_tag(kind, dots)
+            R.contracts[con.name] = con
+            out.append(('src/cffi/cparser.py', R, con.function, con))
+    return out
